@@ -349,6 +349,9 @@ class Retarget:
             defs = [d for d in self.cfg.reaching_defs(self.call, a.id)]
             if len(defs) == 1 and defs[0].stmt is not None and _assign_parts(defs[0].stmt) is not None:
                 a = _assign_parts(defs[0].stmt)[1]
+            elif len(defs) > 1 and all(d.stmt is not None and _assign_parts(d.stmt) is not None for d in defs) and len({A.unparse(_assign_parts(d.stmt)[1]) for d in defs}) == 1:
+                # the same expression on every path (`r = tuple(L)` at the end of each arm)
+                a = _assign_parts(defs[0].stmt)[1]
         if isinstance(a, ast.Call) and isinstance(a.func, ast.Name) and a.func.id == "tuple" and len(a.args) == 1 and isinstance(a.args[0], ast.Name):
             self.L = a.args[0].id
             defs = [d for d in self.cfg.reaching_defs(self.call, self.L)]
@@ -1358,11 +1361,22 @@ def store11(ctx) -> List[Ob]:
 def store12(ctx) -> List[Ob]:
     out: List[Ob] = []
     prog = ctx.prog
+    # only code that takes part in restructuring, editing, reading / writing or code generation: a
+    # convenience query that nothing in the library calls cannot disturb them
+    live = set()
+    for grp in ("restructure", "edit", "io", "backend_ast", "frontend_ast"):
+        try:
+            live |= set(ctx.cg.reachable_from(ctx.entry_points(grp)))
+        except AnalysisError:
+            pass
     for fn in prog.functions:
         if fn.module not in _owner_modules(ctx):
             continue
         for n in A.walk_no_nested(fn.node):
             if not (isinstance(n, ast.Attribute) and n.attr == "_jump_targets" and isinstance(n.ctx, ast.Load)):
+                continue
+            if fn not in live and fn.cls is not None and not any(fn is f_ or fn.parent_fn is f_ for f_ in live):
+                out.append(ok("STORE-12", fn.qualname, A.alpha_key(A.enclosing_stmt(n) or n), ctx.where(fn, n), "read by a method that no restructuring / editing / IO / code-generation path calls", nontrivial=False))
                 continue
             par = A.parent(n)
             key = A.alpha_key(A.enclosing_stmt(n) or n)
